@@ -26,14 +26,14 @@ Lemma rx_dop_fires_reader d r r' w :
 Proof.
   intros H Hw. destruct H.
   - eapply flush_fires_reader; eassumption.
-  - unfold rx_add_remove in H. destruct (ooq_add_remove r k p off) as [s1 a] eqn:E.
+  - rename H0 into Ha. unfold rx_add_remove in Ha. destruct (ooq_add_remove r k p off) as [s1 a] eqn:E.
     apply ooq_add_remove_park in E. destruct E as (_ & _ & E3 & _).
-    destruct a; try (injection H as <- _ <-; left; congruence).
-    destruct (_ && _); [|injection H as <- _ <-; left; congruence].
+    destruct a; try (injection Ha as <- _ <-; left; congruence).
+    destruct (_ && _); [|injection Ha as <- _ <-; left; congruence].
     destruct (rx_flush s1) as [[s2 fr] w2] eqn:Ef.
     assert (K : reader_waker s2 = true \/ In WakeReader w2)
       by (eapply flush_fires_reader; [exact Ef | congruence]).
-    destruct fr; injection H as <- _ <-; exact K.
+    destruct fr; injection Ha as <- _ <-; exact K.
   - unfold rx_mark_vsock_closed in H0. destruct (vsock_closed r); injection H0 as <- <-.
     + left; exact Hw.
     + right. rewrite Hw. left; reflexivity.
@@ -178,10 +178,10 @@ Proof.
     + apply flush_loop_park in E. destruct E as (_ & _ & H3 & _).
       destruct (0 <? fp); injection H as <- _ _; cbn [set_wakers vsock_closed]; rewrite H3; reflexivity.
     + injection H as <- _ _. reflexivity.
-  - unfold rx_add_remove in H. destruct (ooq_add_remove r k p off) as [s1 a] eqn:E.
+  - rename H0 into Ha. unfold rx_add_remove in Ha. destruct (ooq_add_remove r k p off) as [s1 a] eqn:E.
     apply ooq_add_remove_park in E. destruct E as (_ & _ & _ & E4).
-    destruct a; try (injection H as <- _ _; exact E4).
-    destruct (_ && _); [|injection H as <- _ _; exact E4].
+    destruct a; try (injection Ha as <- _ _; exact E4).
+    destruct (_ && _); [|injection Ha as <- _ _; exact E4].
     destruct (rx_flush s1) as [[s2 fr] w2] eqn:Ef.
     assert (K : vsock_closed s2 = vsock_closed s1).
     { unfold rx_flush in Ef.
@@ -190,7 +190,7 @@ Proof.
       - apply flush_loop_park in E. destruct E as (_ & _ & H3 & _).
         destruct (0 <? fp); injection Ef as <- _ _; cbn [set_wakers vsock_closed]; rewrite H3; reflexivity.
       - injection Ef as <- _ _. reflexivity. }
-    destruct fr; injection H as <- _ _; congruence.
+    destruct fr; injection Ha as <- _ _; congruence.
 Qed.
 
 Lemma ncrx_reach_live : forall t (s s' : vsock), reach false t s s' -> ncrx s -> ncrx s'.
